@@ -1134,7 +1134,10 @@ def r4(ctx):
         # innermost: the candidate dominated by all the others
         t, ln, S, cmp_, edge = max(cands, key=lambda x: sum(1 for y in cands if g.dominates(y[0].id, x[0].id)))
         tests_all.append(t)
-        K = self_attr_sub(ln.args[0], "token_map") if ln.args else None
+        larg = ln.args[0] if ln.args else None
+        if isinstance(larg, ast.Name):  # the measured list held in a temporary (`elements = self.token_map.setdefault(..)`)
+            larg = single_origin(f, larg, t.id) or larg
+        K = self_attr_sub(larg, "token_map") if larg is not None else None
         ok, msg = True, ""
         kind = None
         if K is None or not same(K, A):
@@ -1736,6 +1739,9 @@ def _dedent4(t: str) -> str:
 
 
 VARIANTS = [
+    V("count test on a temporary holding the registered list (benign)", "streamflow/workflow/step.py", "streamflow.workflow.step.GatherStep.run",
+      "if len(self.token_map.setdefault(token.tag, [])) == token.value:", "elements = self.token_map.setdefault(token.tag, [])\n                    if len(elements) == token.value:", None),
+
     # ---- R1
     V("compare_tags: int() dropped on both components (three-way string compare)", UFILE, CT,
       "if (res := (int(elem1) - int(elem2))) != 0:", "if (res := ((elem1 > elem2) - (elem1 < elem2))) != 0:", "R1", control=True),
